@@ -192,3 +192,15 @@ CHECKS["C14"] = dict(
     assumptions=["the fake outbound socket does not follow the wall clock: only an already-due deadline expires it", "real-time upper bounds are 2-3 s"],
     units=[unit("props", ["Deadlines"], "C14", needs=["inpkg-service"]), unit("props", ["Lifecycle", "Long"], "C14")],
 )
+
+CHECKS["C15"] = dict(
+    level="exploration",
+    rule="rapid-generated cases of 1..24 concurrent TCP connections through the real StreamServe + StreamHandler over loopback, each with a generated outcome: complete relay (either side closing first), "
+         "random bytes, client replay, reflected server salt, bad address type, connect failure, client reset, target reset, corrupt chunk mid-relay; 0..70000 bytes each way, chunk sizes 1..16383, "
+         "all ciphers, replay cache on/off. A recording ServiceMetrics (also feeding the real Prometheus collector in a pedantic registry) gives the per-connection call sequence, compared with byte counts "
+         "measured at the raw client and target sockets: exactly one close, last; authentication reported iff the reference says the stream authenticates, with an id of that material; a probe report iff "
+         "authentication failed, carrying the bytes the client sent; status in the admissible set of the scenario; four counters equal to the wire for completed connections and never above it otherwise; "
+         "gathered opened/closed/data_bytes consistent with the call log. Non-trivial = any scenario other than a plain small relay, or >16 KB transferred.",
+    assumptions=["statuses of reset scenarios are sets (a reset may surface on either copy direction)"],
+    units=[unit("props", ["Wire"], "C15")],
+)
